@@ -42,8 +42,8 @@ Theorem maybe_get_var_single_multiline doc env v s e :
   maybe_get_var doc env v
   = Some (map_cont (fun l => repeat SP (tv_indent v) ++ skipn c l) text).
 Proof.
-  intros Hk Ha text c _ Hfirst Hcont. unfold maybe_get_var. rewrite Hk, Ha.
-  f_equal. apply extract_indent; assumption.
+  intros Hk Ha text c _ Hfirst Hcont. unfold maybe_get_var, single_range. rewrite Hk, Ha.
+  unfold cut_range; cbn [fst snd]. f_equal. apply extract_indent; assumption.
 Qed.
 
 Theorem maybe_get_var_single_oneline doc env v s e :
@@ -52,8 +52,8 @@ Theorem maybe_get_var_single_oneline doc env v s e :
   has_newline (byte_slice doc s e) = false ->
   maybe_get_var doc env v = Some (byte_slice doc s e).
 Proof.
-  intros Hk Ha Hnl. unfold maybe_get_var. rewrite Hk, Ha.
-  f_equal. apply extract_single_line, Hnl.
+  intros Hk Ha Hnl. unfold maybe_get_var, single_range. rewrite Hk, Ha.
+  unfold cut_range; cbn [fst snd]. f_equal. apply extract_single_line, Hnl.
 Qed.
 
 Theorem maybe_get_var_multiple_multiline doc env v s0 e0 more :
@@ -68,8 +68,8 @@ Theorem maybe_get_var_multiple_multiline doc env v s0 e0 more :
   maybe_get_var doc env v
   = Some (map_cont (fun l => repeat SP (tv_indent v) ++ skipn c l) text).
 Proof.
-  intros Hk Ha e text c _ Hfirst Hcont. unfold maybe_get_var. rewrite Hk, Ha.
-  f_equal. apply extract_indent; assumption.
+  intros Hk Ha e text c _ Hfirst Hcont. unfold maybe_get_var, multi_range. rewrite Hk, Ha.
+  unfold cut_range; cbn [fst snd]. f_equal. apply extract_indent; assumption.
 Qed.
 
 Theorem maybe_get_var_multiple_oneline doc env v s0 e0 more :
@@ -79,8 +79,8 @@ Theorem maybe_get_var_multiple_oneline doc env v s0 e0 more :
   has_newline (byte_slice doc s0 e) = false ->
   maybe_get_var doc env v = Some (byte_slice doc s0 e).
 Proof.
-  intros Hk Ha e Hnl. unfold maybe_get_var. rewrite Hk, Ha.
-  f_equal. apply extract_single_line, Hnl.
+  intros Hk Ha e Hnl. unfold maybe_get_var, multi_range. rewrite Hk, Ha.
+  unfold cut_range; cbn [fst snd]. f_equal. apply extract_single_line, Hnl.
 Qed.
 
 Theorem maybe_get_var_transformed doc env v src :
@@ -88,7 +88,7 @@ Theorem maybe_get_var_transformed doc env v src :
   assoc (tv_name v) (e_trans env) = Some src ->
   maybe_get_var doc env v = Some (map_cont (fun l => repeat SP (tv_indent v) ++ l) src).
 Proof.
-  intros Hk Ha. unfold maybe_get_var. rewrite Hk, Ha. f_equal. apply indent_lines_zero.
+  intros Hk Ha. unfold maybe_get_var, transformed_text. rewrite Hk, Ha. f_equal. apply indent_lines_zero.
 Qed.
 
 Theorem generate_replacement_map_cont doc mstart env t :
@@ -125,15 +125,42 @@ Proof. intros _. cbn [replace_fixer]. now rewrite zip_fill_concat. Qed.
 Theorem replace_fixer_textual doc env s : replace_fixer doc env (Textual s) = s.
 Proof. reflexivity. Qed.
 
+(* a variable stays unsubstituted only if NO capture of that name exists, whatever the sigil *)
 Theorem maybe_get_var_unbound doc env v :
   match tv_kind v with
-  | KSingle => assoc (tv_name v) (e_single env) = None
-  | KMultiple => assoc (tv_name v) (e_multi env) = None
+  | KSingle => single_range env (tv_name v) = None /\ multi_range env (tv_name v) = None
+  | KMultiple => single_range env (tv_name v) = None /\ multi_range env (tv_name v) = None
+                 /\ assoc (tv_name v) (e_trans env) = None
   | KTransformed => assoc (tv_name v) (e_trans env) = None
   end ->
   maybe_get_var doc env v = None.
 Proof.
-  unfold maybe_get_var. destruct (tv_kind v); intros H; rewrite H; reflexivity.
+  unfold maybe_get_var, transformed_text. destruct (tv_kind v).
+  - intros [H1 H2]. rewrite H1, H2. reflexivity.
+  - intros [H1 [H2 H3]]. rewrite H1, H2, H3. reflexivity.
+  - intros H. rewrite H. reflexivity.
+Qed.
+
+(* and conversely: an occurrence of a captured variable is always substituted — `$A`, `$$A`, `$$$A` alike *)
+Theorem maybe_get_var_bound doc env v :
+  (single_range env (tv_name v) <> None \/ multi_range env (tv_name v) <> None) ->
+  tv_kind v <> KTransformed ->
+  maybe_get_var doc env v <> None.
+Proof.
+  intros Hb Hk. unfold maybe_get_var.
+  destruct (tv_kind v); [| |congruence];
+    destruct (single_range env (tv_name v)) as [r1|], (multi_range env (tv_name v)) as [r2|];
+    cbn [option_map]; try discriminate; destruct Hb as [Hb|Hb]; congruence.
+Qed.
+
+(* a `$$$T` spelling of a transformation T (no capture of that name) yields the transformed text *)
+Theorem maybe_get_var_multiple_transformed doc env v src :
+  tv_kind v = KMultiple ->
+  single_range env (tv_name v) = None -> multi_range env (tv_name v) = None ->
+  assoc (tv_name v) (e_trans env) = Some src ->
+  maybe_get_var doc env v = Some (map_cont (fun l => repeat SP (tv_indent v) ++ l) src).
+Proof.
+  intros Hk H1 H2 Ha. unfold maybe_get_var, transformed_text. rewrite Hk, H1, H2, Ha. f_equal. apply indent_lines_zero.
 Qed.
 
 Lemma tpl_scan_lengths mc tr : forall fuel d fr rest fs vs,
@@ -188,8 +215,8 @@ Proof.
   intros doc s e _ _ text c Hfirst Hcont.
   rewrite generate_replacement_map_cont. fold c.
   rewrite tplA_eq. cbn [replace_fixer zip_fill app].
-  unfold maybe_get_var. cbn [tv_kind tv_name tv_indent envA e_single].
-  rewrite assoc_same. rewrite !app_nil_r.
+  unfold maybe_get_var, single_range, cut_range. cbn [tv_kind tv_name tv_indent envA e_single].
+  rewrite assoc_same. cbn [fst snd]. rewrite !app_nil_r.
   rewrite (extract_indent doc s e 0 Hfirst Hcont). fold text. fold c.
   cbn [repeat app].
   rewrite map_cont_compose by (intros l Hl; apply has_newline_skipn, Hl).
